@@ -11,19 +11,29 @@ import CwMt.Proofs.StakingExample
 namespace CwMt.C16
 open CwMt CwMt.Staking KMap
 
-/-- Every delegation to `v` becomes `mul(share, 1−p)` (floor at 10^-18), or less when the validator's whole-token
-total floors to zero (then all of them are dropped); nothing increases, neither the record nor the shown value. -/
-theorem scales_down {c c' : Chain} {v : String} {p : Dec} (hi : SInv c.st) (h : sudoSlash c v p = .ok c') (d : Addr) :
+/-- Every delegation to `v` becomes exactly `mul(share, 1−p)` (floor at 10^-18) — unless the new validator total
+`⌊Σ scaled shares⌋` is zero: then all delegations of `v` are dropped, and all of them together were worth less than
+one token after scaling (so each of them, too): only sub-token remainders are lost. -/
+theorem scales_down {c c' : Chain} {v : String} {p : Dec} (hi : SInv c.st) (h : sudoSlash c v p = .ok c') :
+    (scaledTotal c.st.stakes v (remOf p) / Dec.ONE ≠ 0 →
+        ∀ d, stakeOf c'.st d v = Dec.mul (stakeOf c.st d v) (remOf p)) ∧
+    (scaledTotal c.st.stakes v (remOf p) / Dec.ONE = 0 →
+        scaledTotal c.st.stakes v (remOf p) < Dec.ONE ∧
+        ∀ d, stakeOf c'.st d v = Dec.zero ∧ (Dec.mul (stakeOf c.st d v) (remOf p)).atomics < Dec.ONE) :=
+  slash_scales_exact hi h
+
+/-- Nothing increases: neither the record nor the shown value. -/
+theorem never_increases {c c' : Chain} {v : String} {p : Dec} (hi : SInv c.st) (h : sudoSlash c v p = .ok c') (d : Addr) :
     stakeOf c'.st d v ≤ Dec.mul (stakeOf c.st d v) (remOf p) ∧ stakeOf c'.st d v ≤ stakeOf c.st d v ∧
     (stakeOf c'.st d v).floor ≤ (stakeOf c.st d v).floor := slash_scales_down hi h d
 
-/-- … with equality `share' = mul(share, 1−p)` for every delegator unless the validator total floors to zero; the
-validator total becomes `⌊total·(1−p)⌋`. -/
-theorem scales_exactly {c c' : Chain} {v : String} {p : Dec} (hi : SInv c.st) (h : sudoSlash c v p = .ok c') :
+/-- The validator total becomes the whole tokens of the sum of the scaled shares, i.e. of the shares it now has. -/
+theorem total_is_sum_of_shares {c c' : Chain} {v : String} {p : Dec} (hi : SInv c.st) (h : sudoSlash c v p = .ok c') :
     ∃ vi vi', get? c.st.vinfo v = some vi ∧ get? c'.st.vinfo v = some vi' ∧
-      vi'.stake = Dec.mulFloor vi.stake (remOf p) ∧
-      (Dec.mulFloor vi.stake (remOf p) ≠ 0 → ∀ d, stakeOf c'.st d v = Dec.mul (stakeOf c.st d v) (remOf p)) ∧
-      (Dec.mulFloor vi.stake (remOf p) = 0 → ∀ d, get? c'.st.stakes (d, v) = none) :=
+      vi'.stake = scaledTotal c.st.stakes v (remOf p) / Dec.ONE ∧
+      (vi'.stake ≠ 0 → (∀ d, stakeOf c'.st d v = Dec.mul (stakeOf c.st d v) (remOf p)) ∧
+                        vi'.stake = shareSum c'.st.stakes v / Dec.ONE ∧ vi'.stakers = vi.stakers) ∧
+      (vi'.stake = 0 → (∀ d, get? c'.st.stakes (d, v) = none) ∧ scaledTotal c.st.stakes v (remOf p) < Dec.ONE) :=
   (slash_effect hi h).total
 
 /-- Pending unbondings from `v` become `⌊amount·(1−p)⌋`, those from other validators are untouched. -/
@@ -32,13 +42,13 @@ theorem unbondings_scaled {c c' : Chain} {v : String} {p : Dec} (hi : SInv c.st)
       if u.validator = v then { u with amount := Dec.mulFloor u.amount (remOf p) } else u) :=
   (slash_frame hi h).2.2.2.2
 
-/-- Exact when whole: a whole delegation `n` (at most the validator total, as it is when the total is the sum of whole
-delegations) whose scaled value `n·(1−p) = m` is whole becomes exactly `m` and is whole again. -/
+/-- Exact when whole: a whole delegation `n` whose scaled value `n·(1−p) = m` is whole becomes exactly `m` and is
+whole again. -/
 theorem exact_when_whole {c c' : Chain} {v : String} {p : Dec} (hi : SInv c.st)
-    (h : sudoSlash c v p = .ok c') (d : Addr) (n m : Nat) (vi : ValInfo) (hv : get? c.st.vinfo v = some vi)
-    (hn : stakeOf c.st d v = Dec.ofNat n) (hle : n ≤ vi.stake) (hm : n * (remOf p).atomics = Dec.ONE * m) :
+    (h : sudoSlash c v p = .ok c') (d : Addr) (n m : Nat)
+    (hn : stakeOf c.st d v = Dec.ofNat n) (hm : n * (remOf p).atomics = Dec.ONE * m) :
     stakeOf c'.st d v = Dec.ofNat m ∧ (stakeOf c'.st d v).floor = m :=
-  slash_exact_when_whole hi h d n m vi hv hn hle hm
+  slash_exact_when_whole hi h d n m hn hm
 
 /-- Frame: bank balances, withdraw addresses, every record and total of other validators are unchanged. -/
 theorem frame {c c' : Chain} {v : String} {p : Dec} (hi : SInv c.st) (h : sudoSlash c v p = .ok c') :
@@ -80,10 +90,15 @@ theorem repeated {cfg : Cfg} {v : String} (ps : List Dec) (c c' : Chain) (hi : I
 example : (stakeOf (runAll exCfg exChain [.delegate "d1" "v1" ⟨"TOKEN", 3⟩, .delegate "d2" "v1" ⟨"TOKEN", 3⟩,
     .slash "v1" ⟨500000000000000000⟩, .slash "v1" ⟨333333333333333333⟩]).1.st "d1" "v1").atomics
     = 1000000000000000000 := by decide
-/-- the same two slashes on a single delegator: the validator total goes 3 → 1 → 0 and takes the delegation (worth
-1.0 tokens) with it — the "or less" case of `scales_down` -/
-example : (runAll exCfg exChain [.delegate "d1" "v1" ⟨"TOKEN", 3⟩, .slash "v1" ⟨500000000000000000⟩,
-    .slash "v1" ⟨333333333333333333⟩]).1.st.stakes = [] := by decide
+/-- the same two slashes on a single delegator (wiped before the fix of `slash`): exactly 1.0 token remains -/
+example : (stakeOf (runAll exCfg exChain [.delegate "d1" "v1" ⟨"TOKEN", 3⟩, .slash "v1" ⟨500000000000000000⟩,
+    .slash "v1" ⟨333333333333333333⟩]).1.st "d1" "v1").atomics = 1000000000000000000 := by decide
+/-- three slashes of 10^-18 on 3 tokens (wiped a 2.99…-token delegation before the fix): 2.999999999999999991 remain -/
+example : (stakeOf (runAll exCfg exChain [.delegate "d1" "v1" ⟨"TOKEN", 3⟩, .slash "v1" ⟨1⟩, .slash "v1" ⟨1⟩,
+    .slash "v1" ⟨1⟩]).1.st "d1" "v1").atomics = 2999999999999999991 := by decide
+/-- the zero-total case: one token slashed by 10 % is worth 0.9 < 1 token and is dropped -/
+example : (runAll exCfg exChain [.delegate "d1" "v1" ⟨"TOKEN", 1⟩, .slash "v1" ⟨100000000000000000⟩]).1.st.stakes = [] := by
+  decide
 example : (step exCfg exChain (.slash "v1" ⟨1000000000000000001⟩)).2 = .err := by decide
 example : (step exCfg exChain (.slash "v9" ⟨1⟩)).2 = .err := by decide
 example : (runAll exCfg exChain [.delegate "d1" "v1" ⟨"TOKEN", 4⟩, .slash "v1" Dec.one]).1.st.stakes = [] := by decide
